@@ -7,6 +7,7 @@ import (
 	"io"
 	"sync"
 	"sync/atomic"
+	"time"
 
 	connect "github.com/bufbuild/connect-go"
 	"verif.local/harness/refcodec"
@@ -107,6 +108,36 @@ type AlgoStats struct {
 	Violations     int64
 	mu             sync.Mutex
 	Notes          []string
+	// Pair != 0: the first Read of every checkout waits (briefly) until another
+	// decompressor of this algorithm is reading too, so that calls which run at
+	// about the same time really do hold their pooled decompressors at the same
+	// time. A pool that contains one object twice then hands it to both.
+	Pair   int32
+	waiter chan struct{}
+	Paired int64
+}
+
+func (s *AlgoStats) rendezvous() {
+	s.mu.Lock()
+	if s.waiter != nil {
+		close(s.waiter)
+		s.waiter = nil
+		s.mu.Unlock()
+		atomic.AddInt64(&s.Paired, 1)
+		return
+	}
+	ch := make(chan struct{})
+	s.waiter = ch
+	s.mu.Unlock()
+	select {
+	case <-ch:
+	case <-time.After(150 * time.Millisecond):
+		s.mu.Lock()
+		if s.waiter == ch {
+			s.waiter = nil
+		}
+		s.mu.Unlock()
+	}
 }
 
 func (s *AlgoStats) violate(f string, a ...any) {
@@ -174,6 +205,10 @@ type zzDecompressor struct {
 	err   error
 	open  bool
 	inUse int32
+	// busy: between a successful Reset on real data and Close, i.e. while one
+	// call owns the object.
+	busy     int32
+	readOnce int32
 }
 
 func (d *zzDecompressor) enter() {
@@ -184,6 +219,9 @@ func (d *zzDecompressor) enter() {
 func (d *zzDecompressor) leave() { atomic.AddInt32(&d.inUse, -1) }
 
 func (d *zzDecompressor) Read(p []byte) (int, error) {
+	if atomic.LoadInt32(&d.stats.Pair) != 0 && atomic.CompareAndSwapInt32(&d.readOnce, 0, 1) {
+		d.stats.rendezvous()
+	}
 	d.enter()
 	defer d.leave()
 	if !d.open {
@@ -200,6 +238,7 @@ func (d *zzDecompressor) Close() error {
 	d.enter()
 	defer d.leave()
 	d.open = false
+	atomic.StoreInt32(&d.busy, 0)
 	return nil
 }
 
@@ -226,6 +265,10 @@ func (d *zzDecompressor) Reset(r io.Reader) error {
 		d.out = bytes.NewReader(nil)
 		return err
 	}
+	if !atomic.CompareAndSwapInt32(&d.busy, 0, 1) {
+		d.stats.violate("%s decompressor handed to a second call before the first one released it (the pool holds the same object twice)", d.name)
+	}
+	atomic.StoreInt32(&d.readOnce, 0)
 	d.out = bytes.NewReader(dec)
 	return nil
 }
